@@ -204,7 +204,7 @@ class FindCacheFile(namedtuple('FindCacheFile', ['regen_files', 'cache'])):
 
 
 def write_depfile(env, path, output, seen_dirs, makeify=False):
-    with open(path.string(env.base_dirs), 'w') as f:
+    with _path.atomic_write(path.string(env.base_dirs)) as f:
         # Since this file is in the build dir, we can use relative dirs for
         # deps also in the build dir.
         roots = env.base_dirs.copy()
